@@ -63,6 +63,23 @@ func genC16(t *rapid.T) *C16Case {
 			}
 			if !clash {
 				b.Name = a.Name
+				// both same-named workloads become Ingress/Route targets (a bare-name focus then has several ingress lines)
+				if rapid.Bool().Draw(t, "sharetargets") {
+					for i, x := range []*Workload{a, b} {
+						if x.Labels == nil {
+							x.Labels = map[string]string{}
+						}
+						x.Labels["app"] = "x1"
+						x.Ports = append(x.Ports, CPort{Number: 8080 + i})
+						sv := Svc{Ns: x.Ns, Name: fmt.Sprintf("fsvc%d", i), Selector: map[string]string{"app": "x1"}, Ports: []SvcPort{{Port: 80, TargetNum: 8080 + i}}}
+						w.Services = append(w.Services, sv)
+						if rapid.Bool().Draw(t, fmt.Sprintf("sharevia%d", i)) {
+							w.Routes = append(w.Routes, Route{Ns: x.Ns, Name: fmt.Sprintf("frt%d", i), To: sv.Name})
+						} else {
+							w.Ingresses = append(w.Ingresses, Ing{Ns: x.Ns, Name: fmt.Sprintf("fing%d", i), Default: &Backend{Svc: sv.Name, PortNum: 80}})
+						}
+					}
+				}
 			}
 		}
 	}
